@@ -310,7 +310,7 @@ class RiscvArch(Architecture):
                         r = fregs.pop(0)
                     else:
                         arg_size = self.info.get_size(a)
-                        r = StackLocation(offset, a.size)
+                        r = StackLocation(offset, arg_size)
                         offset += arg_size
                 else:
                     if regs:
